@@ -154,6 +154,11 @@ class DatabaseService(Service, discriminator="database-service"):
             self.sys_log.error("Unable to restore database backup.")
             return False
 
+        # the copy must have arrived before the current file is touched: a restore that fails must not cost the data
+        if self.file_system.get_file(folder_name="downloads", file_name="database.db") is None:
+            self.sys_log.error("Unable to restore database backup as the backup copy has not arrived.")
+            return False
+
         old_visible_state = SoftwareHealthState.GOOD
 
         # get db file regardless of whether or not it was deleted
